@@ -118,6 +118,13 @@ class MemorySpaceCastOp(Operation):
     def dest(self):
         return self.results[0]
 
+    @staticmethod
+    def from_type_and_target_space(source, type, dest_memory_space):
+        from xdsl.dialects.builtin import MemRefType
+
+        dest = MemRefType(type.get_element_type(), type.get_shape(), type.layout, dest_memory_space)
+        return MemorySpaceCastOp(source, dest)
+
 
 class SubviewOp(Operation):
     """structure: source, dynamic offsets / sizes / strides as operands, the static lists as DenseArrayBase-like objects
